@@ -88,7 +88,7 @@ pub fn run_c19(out: &mut Out, _rng: &mut Rng, tier: Tier) -> String {
         out.case(&format!("rows lens={:?}", lens));
         let mut w = World::<Tok>::new(out);
         let uniform = lens.iter().all(|l| *l == lens.first().copied().unwrap_or(0));
-        for kind in ["vec_vec", "slice_vec", "iter", "array_vec"] {
+        for kind in ["vec_vec", "slice_vec", "iter", "array_vec", "iter_liar_rows", "iter_liar_over", "iter_liar_under"] {
             if kind == "array_vec" && lens.len() > 5 { continue; }
             w.rows(out, 0, kind, lens);
         }
